@@ -430,7 +430,7 @@ def step (σ : St) (t : Token) : St :=
 def lexLoop : Nat → St → Bool → List Char → List Token → Option (List Token)
   | 0, _, _, _, _ => none
   | fuel + 1, σ, nl0, cs, acc =>
-    match skipTrivia (cs.length + 1) nl0 cs with
+    match skipTrivia (fuel + 1) nl0 cs with
     | none => none
     | some (_, []) => some acc.reverse
     | some (nl, c :: r) =>
@@ -440,14 +440,15 @@ def lexLoop : Nat → St → Bool → List Char → List Token → Option (List 
         let t : Token := ⟨k, w, nl⟩
         lexLoop fuel (step σ t) false rest (t :: acc)
 
-/-- the tokens of a script; `none`: not lexable -/
+/-- the tokens of a script; `none`: not lexable.  The fuel (one more than the number of characters) bounds both the
+    number of tokens and the trivia skipped in front of each of them. -/
 def lex (cs : List Char) : Option (List Token) := lexLoop (cs.length + 1) {} true cs []
 
 /-- the same with the position of the failure: number of tokens read and the unread rest -/
 def lexDiag : Nat → St → Bool → List Char → Nat → Except (Nat × List Char) Nat
   | 0, _, _, cs, n => .error (n, cs)
   | fuel + 1, σ, nl0, cs, n =>
-    match skipTrivia (cs.length + 1) nl0 cs with
+    match skipTrivia (fuel + 1) nl0 cs with
     | none => .error (n, cs)
     | some (_, []) => .ok n
     | some (nl, c :: r) =>
